@@ -135,18 +135,27 @@ fn gen_case(seed: u64, idx: u64) -> Case {
         prelude.reverse();
     }
     let nops = nops + prelude.len() as u64;
+    let mut recs: Vec<(usize, Rec)> = vec![]; // the concrete operations, for the minimisation protocol (replay_kept)
     for _ in 0..nops {
         let scripted = prelude.pop();
         let t = match scripted { Some(p) => p.0, None => r.below(ng as u64) as usize };
         let before_blocks = gs[t].blocks().len();
         let pick = match scripted { Some(p) => p.1, None => r.below(100) };
         let fixed_idx = scripted.map(|p| (p.2, p.3));
+        // bound graph growth: repeated self-appends double the graph (800+ blocks, 1 MB case terms and a
+        // language check beyond the oracle's search budget); past MAX_BLOCKS a growing operation becomes a merge
+        const MAX_BLOCKS: usize = 48;
+        let biggest = gs.iter().map(|g| g.blocks().len()).max().unwrap_or(0);
+        let grows_too_much = (pick >= 85 && pick < 98 && gs[t].blocks().len() + biggest > MAX_BLOCKS)
+            || (pick >= 98 && 3 * biggest + 1 > MAX_BLOCKS);
+        let pick = if grows_too_much { tags.push("cap:growth->merge".into()); 80 } else { pick };
         let (opc, opd, res): (String, String, Obs<Vec<usize>>);
         if pick < 16 {
             let o = observe(|| gs[t].new_block().map(|b| vec![b.index()]));
             opc = "CNewBlock".into();
             opd = "new_block".into();
             res = o;
+            recs.push((t, Rec::NewBlock));
         } else if pick < 34 {
             let (mut h, mut tl) = (some_index(r, &gs[t]), some_index(r, &gs[t]));
             if selfloops && r.chance(1, 5) {
@@ -155,22 +164,26 @@ fn gen_case(seed: u64, idx: u64) -> Case {
             if let Some((a, b)) = fixed_idx { h = a; tl = b; }
             if (fixed_idx.is_some() && pick == 20) || (fixed_idx.is_none() && r.chance(3, 5)) {
                 res = observe(|| gs[t].unconditional_edge(h, tl).map(|_| vec![]));
+                recs.push((t, Rec::Uncond(h, tl)));
                 opc = format!("CUncond {} {}", h, tl);
                 opd = format!("unconditional_edge({},{})", h, tl);
             } else {
                 let k = r.below(3);
                 res = observe(|| gs[t].conditional_edge(h, tl, guard(k)).map(|_| vec![]));
+                recs.push((t, Rec::Cond(h, tl, k)));
                 opc = format!("CCond {} {} (gd {})", h, tl, k);
                 opd = format!("conditional_edge({},{},x=={})", h, tl, k);
             }
         } else if pick < 41 {
             let i = match fixed_idx { Some((a, _)) => a, None => some_index(r, &gs[t]) };
             res = observe(|| gs[t].set_entry(i).map(|_| vec![]));
+            recs.push((t, Rec::SetEntry(i)));
             opc = format!("CSetEntry {}", i);
             opd = format!("set_entry({})", i);
         } else if pick < 48 {
             let i = match fixed_idx { Some((a, _)) => a, None => some_index(r, &gs[t]) };
             res = observe(|| gs[t].set_exit(i).map(|_| vec![]));
+            recs.push((t, Rec::SetExit(i)));
             opc = format!("CSetExit {}", i);
             opd = format!("set_exit({})", i);
         } else if pick < 66 {
@@ -187,6 +200,7 @@ fn gen_case(seed: u64, idx: u64) -> Case {
                 }
                 Ok(vec![])
             });
+            recs.push((t, Rec::Push(b, if nop { None } else { Some(k) })));
             opc = format!("CPush {} {}", b, if nop { "(ONop None)".to_string() } else { format!("(opk {})", k) });
             opd = format!("block_mut({}).{}", b, if nop { "nop()".to_string() } else { format!("assign(x,{})", k) });
         } else if pick < 72 {
@@ -196,16 +210,19 @@ fn gen_case(seed: u64, idx: u64) -> Case {
                 _ => r.below(4) as usize,
             };
             res = observe(|| gs[t].block_mut(b)?.remove_instruction(ii).map(|_| vec![]));
+            recs.push((t, Rec::RemoveInstr(b, ii)));
             opc = format!("CRemoveInstr {} {}", b, ii);
             opd = format!("block_mut({}).remove_instruction({})", b, ii);
         } else if pick < 75 {
             let a = if r.chance(1, 4) { None } else { Some(0x1000 + r.below(64)) };
             gs[t].set_address(a);
             res = Obs::Ok(vec![]);
+            recs.push((t, Rec::SetAddress(a)));
             opc = format!("CSetAddress {}", coq_optz(a));
             opd = format!("set_address({:?})", a);
         } else if pick < 85 {
             res = observe(|| gs[t].merge().map(|_| vec![]));
+            recs.push((t, Rec::Merge));
             opc = "CMerge".into();
             opd = "merge()".into();
             if gs[t].blocks().len() < before_blocks {
@@ -215,6 +232,7 @@ fn gen_case(seed: u64, idx: u64) -> Case {
             let s = r.below(ng as u64) as usize;
             let other = gs[s].clone();
             res = observe(|| gs[t].append(&other).map(|_| vec![]));
+            recs.push((t, Rec::Append(s)));
             opc = format!("CAppend {}", s);
             opd = format!("append(g{})", s);
             if matches!(res, Obs::Ok(_)) {
@@ -227,6 +245,7 @@ fn gen_case(seed: u64, idx: u64) -> Case {
             let s = r.below(ng as u64) as usize;
             let other = gs[s].clone();
             res = observe(|| gs[t].insert(&other).map(|(a, b)| vec![a, b]));
+            recs.push((t, Rec::Insert(s)));
             opc = format!("CInsert {}", s);
             opd = format!("insert(g{})", s);
         } else {
@@ -242,6 +261,7 @@ fn gen_case(seed: u64, idx: u64) -> Case {
                 Obs::Err(k) => Obs::Err(k),
                 Obs::Panic => Obs::Panic,
             };
+            recs.push((t, Rec::Blockify(srcs.clone())));
             opc = format!("CBlockify {}", coq_list(srcs.iter().map(|s| format!("{}%nat", s)).collect::<Vec<_>>()));
             opd = format!("blockify({:?})", srcs);
         }
@@ -255,6 +275,9 @@ fn gen_case(seed: u64, idx: u64) -> Case {
         let after = if d == last_dump[t] { "None".to_string() } else { format!("(Some {})", d) };
         last_dump[t] = d;
         steps.push(format!("mkstep {} ({}) {} {}", t, opc, obs_lz(&res), after));
+    }
+    if keep().is_some() {
+        return replay_kept(seed, idx, ng, recs);
     }
     tags.sort();
     tags.dedup();
@@ -272,6 +295,157 @@ fn gen_case(seed: u64, idx: u64) -> Case {
         nontrivial: nops >= 5 && (merges_eff > 0 || appends_ok > 0) && fails < nops,
         key,
     }
+    .with_elements(nops as usize)
+}
+
+/// minimisation protocol (`--keep p0,p1,..`).  Generation of a history looks at the graphs built so far (block
+/// indices, instruction indices, the growth cap), so `gen_case` first runs the whole history exactly as usual and
+/// records the concrete operations; the kept ones are then run again here, on fresh graphs, and observed the same
+/// way.  `--keep all` must reproduce the case of the normal run.
+#[derive(Clone)]
+enum Rec {
+    NewBlock,
+    Uncond(usize, usize),
+    Cond(usize, usize, u64),
+    SetEntry(usize),
+    SetExit(usize),
+    Push(usize, Option<u64>),
+    RemoveInstr(usize, usize),
+    SetAddress(Option<u64>),
+    Merge,
+    Append(usize),
+    Insert(usize),
+    Blockify(Vec<usize>),
+}
+fn replay_kept(seed: u64, idx: u64, ng: usize, recs: Vec<(usize, Rec)>) -> Case {
+    let nelems = recs.len();
+    let mut gs: Vec<ControlFlowGraph> = (0..ng).map(|_| ControlFlowGraph::new()).collect();
+    let mut it = Interner::new();
+    let (mut steps, mut tags, mut descr): (Vec<String>, Vec<String>, Vec<String>) = (vec![], vec![], vec![]);
+    let mut last_dump: Vec<String> = (0..ng).map(|_| String::new()).collect();
+    let (mut merges_eff, mut appends_ok, mut fails, mut nrun) = (0, 0, 0u64, 0u64);
+    for (t, rec) in recs.into_iter().enumerate().filter(|(i, _)| kept(*i)).map(|(_, x)| x) {
+        nrun += 1;
+        let before_blocks = gs[t].blocks().len();
+        let (opc, opd, res): (String, String, Obs<Vec<usize>>);
+        match rec {
+            Rec::NewBlock => {
+                res = observe(|| gs[t].new_block().map(|b| vec![b.index()]));
+                opc = "CNewBlock".into();
+                opd = "new_block".into();
+            }
+            Rec::Uncond(h, tl) => {
+                res = observe(|| gs[t].unconditional_edge(h, tl).map(|_| vec![]));
+                opc = format!("CUncond {} {}", h, tl);
+                opd = format!("unconditional_edge({},{})", h, tl);
+            }
+            Rec::Cond(h, tl, k) => {
+                res = observe(|| gs[t].conditional_edge(h, tl, guard(k)).map(|_| vec![]));
+                opc = format!("CCond {} {} (gd {})", h, tl, k);
+                opd = format!("conditional_edge({},{},x=={})", h, tl, k);
+            }
+            Rec::SetEntry(i) => {
+                res = observe(|| gs[t].set_entry(i).map(|_| vec![]));
+                opc = format!("CSetEntry {}", i);
+                opd = format!("set_entry({})", i);
+            }
+            Rec::SetExit(i) => {
+                res = observe(|| gs[t].set_exit(i).map(|_| vec![]));
+                opc = format!("CSetExit {}", i);
+                opd = format!("set_exit({})", i);
+            }
+            Rec::Push(b, k) => {
+                res = observe(|| {
+                    let blk = gs[t].block_mut(b)?;
+                    match k {
+                        None => blk.nop(),
+                        Some(k) => blk.assign(xs(), il::expr_const(k, 16)),
+                    }
+                    Ok(vec![])
+                });
+                opc = format!("CPush {} {}", b, match k { None => "(ONop None)".to_string(), Some(k) => format!("(opk {})", k) });
+                opd = format!("block_mut({}).{}", b, match k { None => "nop()".to_string(), Some(k) => format!("assign(x,{})", k) });
+            }
+            Rec::RemoveInstr(b, ii) => {
+                res = observe(|| gs[t].block_mut(b)?.remove_instruction(ii).map(|_| vec![]));
+                opc = format!("CRemoveInstr {} {}", b, ii);
+                opd = format!("block_mut({}).remove_instruction({})", b, ii);
+            }
+            Rec::SetAddress(a) => {
+                gs[t].set_address(a);
+                res = Obs::Ok(vec![]);
+                opc = format!("CSetAddress {}", coq_optz(a));
+                opd = format!("set_address({:?})", a);
+            }
+            Rec::Merge => {
+                res = observe(|| gs[t].merge().map(|_| vec![]));
+                opc = "CMerge".into();
+                opd = "merge()".into();
+                if gs[t].blocks().len() < before_blocks {
+                    merges_eff += 1;
+                }
+            }
+            Rec::Append(s) => {
+                let other = gs[s].clone();
+                res = observe(|| gs[t].append(&other).map(|_| vec![]));
+                opc = format!("CAppend {}", s);
+                opd = format!("append(g{})", s);
+                if matches!(res, Obs::Ok(_)) {
+                    appends_ok += 1;
+                    if s != t {
+                        tags.push("cross-graph-append".into());
+                    }
+                }
+            }
+            Rec::Insert(s) => {
+                let other = gs[s].clone();
+                res = observe(|| gs[t].insert(&other).map(|(a, b)| vec![a, b]));
+                opc = format!("CInsert {}", s);
+                opd = format!("insert(g{})", s);
+            }
+            Rec::Blockify(srcs) => {
+                let instrs: Vec<(u64, ControlFlowGraph)> = srcs.iter().enumerate().map(|(k, s)| (0x2000 + k as u64, gs[*s].clone())).collect();
+                let o = observe(|| BlockTranslationResult::new(instrs, 0x2000, 4, vec![]).blockify());
+                res = match o {
+                    Obs::Ok(g) => {
+                        gs[t] = g;
+                        Obs::Ok(vec![])
+                    }
+                    Obs::Err(k) => Obs::Err(k),
+                    Obs::Panic => Obs::Panic,
+                };
+                opc = format!("CBlockify {}", coq_list(srcs.iter().map(|s| format!("{}%nat", s)).collect::<Vec<_>>()));
+                opd = format!("blockify({:?})", srcs);
+            }
+        }
+        if !matches!(res, Obs::Ok(_)) {
+            fails += 1;
+        }
+        let opname = opc.split(' ').next().unwrap().to_string();
+        tags.push(format!("op:{}:{}", opname, res.kind()));
+        descr.push(format!("g{}.{}={}", t, opd, res.kind()));
+        let d = dump(&gs[t], &mut it);
+        let after = if d == last_dump[t] { "None".to_string() } else { format!("(Some {})", d) };
+        last_dump[t] = d;
+        steps.push(format!("mkstep {} ({}) {} {}", t, opc, obs_lz(&res), after));
+    }
+    tags.sort();
+    tags.dedup();
+    if merges_eff > 0 {
+        tags.push("merge:effective".into());
+    }
+    tags.push(format!("ops:{}", (nrun / 10) * 10));
+    if appends_ok > 0 { tags.push("append:ok".into()); }
+    let coq = format!("KHist {} {}", ng, coq_list(steps));
+    let key = format!("{:x}", fxhash(&coq));
+    Case {
+        descr: format!("[operations kept: {} of {}] {} graph(s); {}; regenerate with --seed {} --only {} --keep {}", keep_arg().unwrap_or_default(), nelems, ng, descr.join("; "), seed, idx, keep_arg().unwrap_or_default()),
+        coq,
+        tags,
+        nontrivial: nrun >= 5 && (merges_eff > 0 || appends_ok > 0) && fails < nrun,
+        key,
+    }
+    .with_elements(nelems)
 }
 
 fn fxhash(s: &str) -> u64 {
